@@ -49,9 +49,12 @@ const (
 	nmRefuse
 	nmResize
 	nmKinds
+	// nmObserve is not drawn: a probe call put in front of a tick that records
+	// the candidate lists as they are at that point of the block (C06)
+	nmObserve = nmKinds
 )
 
-var nmKindName = []string{"addPeer", "addPeerIR", "addNode", "updateState", "updateStateIR", "deleteNode", "newEpoch", "subscribe", "probe.refuseEpoch", "updateSnapshotCount"}
+var nmKindName = []string{"addPeer", "addPeerIR", "addNode", "updateState", "updateStateIR", "deleteNode", "newEpoch", "subscribe", "probe.refuseEpoch", "updateSnapshotCount", "probe.observe"}
 
 // Node states of the documented enumeration (nodestate/type.go).
 const (
@@ -404,6 +407,7 @@ type nmTx struct {
 	target  int    // subscribe / refuse: -1 Balance, i probe
 	count   int64  // resize
 	ringPos int64  // resize: coverage accounting only
+	obsSlot int    // tick: slot of the observation made right before it (-1: none); observe: its slot
 }
 
 type nmEngine struct {
@@ -425,6 +429,8 @@ type nmEngine struct {
 	pending  []*nmTx
 	bigJumps bool // epoch jumps land right below 2^31
 	c08Drift bool // C08: a published map was taken from observation
+	obsSeq       int        // observation slots handed out so far
+	blkTickSlots [][2]int64 // (epoch, slot) of the ticks that took effect in the block just executed
 }
 
 func nmBody(r *Run) {
@@ -808,6 +814,18 @@ func (e *nmEngine) build(op nmOp) []*nmTx {
 		bt.signers, sf = AlphaSignerClass(e.w, op.Sig, e.stranger)
 		bt.epoch = ep
 		bt.desc = fmt.Sprintf("newEpoch(%d)", ep)
+		bt.obsSlot = -1
+		if e.r.Prop == "C06" && len(e.probes) > 0 {
+			// C06 speaks of the candidate set as it is when the tick executes:
+			// a probe call right in front of the tick records it
+			e.obsSeq++
+			ob := &nmTx{op: op, kind: nmObserve, obsSlot: e.obsSeq}
+			ob.op.GasCut = 0
+			ob.desc = fmt.Sprintf("probe0.observe(slot %d)", e.obsSeq)
+			e.finishTx(ob, "", CallScript(e.probes[0].Hash, "observe", e.nm, int64(e.obsSeq)))
+			pre = append(pre, ob)
+			bt.obsSlot = e.obsSeq
+		}
 		e.finishTx(bt, nmOr(sf, f), CallScript(e.nm, "newEpoch", ep))
 		if sf == "" && !bt.gasCut && ep > e.proj && !e.probeWouldRefuse(ep) && (op.Sig != 5 || e.bal == nil) {
 			e.proj = ep
@@ -1211,6 +1229,8 @@ func (e *nmEngine) predict(bt *nmTx) nmPrediction {
 		// outcome follows the application log: a subscription is registered iff
 		// the call HALTs and announces NewEpochSubscription(contract).
 		return nmPrediction{exp: nmDontCare, evsOpen: true, apply: nothing}
+	case nmObserve:
+		return nmPrediction{exp: nmDontCare, evsOpen: true, apply: nothing}
 	case nmRefuse:
 		return nmPrediction{exp: nmDontCare, evsOpen: true, apply: func() {
 			m.probeArmed[bt.target] = bt.epoch >= 0
@@ -1324,6 +1344,7 @@ func (e *nmEngine) block(pending []*nmTx, dt uint64) {
 	}
 	anyTook := false
 	ticksOK, candsOK := 0, 0
+	var tickSlots [][2]int64
 	var refusedTick, refusedCand, refusedResize bool
 	for i, bt := range pending {
 		aer := aers[i]
@@ -1391,7 +1412,7 @@ func (e *nmEngine) block(pending []*nmTx, dt uint64) {
 				if e.alpha(bt, 0) && outcome != "gasfault" {
 					r.Count("unexpected_refusal.subscribe")
 				}
-			case nmRefuse:
+			case nmRefuse, nmObserve:
 			default:
 				refusedCand = true
 			}
@@ -1446,13 +1467,17 @@ func (e *nmEngine) block(pending []*nmTx, dt uint64) {
 		switch bt.kind {
 		case nmTick:
 			ticksOK++
+			if bt.obsSlot >= 0 {
+				tickSlots = append(tickSlots, [2]int64{bt.epoch, int64(bt.obsSlot)})
+			}
 		case nmAddPeer, nmAddPeerIR, nmAddNode, nmUpdateState, nmUpdateStateIR, nmDeleteNode:
 			candsOK++
 		}
-		if bt.kind != nmSubscribe {
+		if bt.kind != nmSubscribe && bt.kind != nmObserve {
 			r.Changed()
 		}
 	}
+	e.blkTickSlots = tickSlots
 	if ticksOK > 1 {
 		r.Count("probe.several_ticks_in_one_block")
 	}
@@ -1546,6 +1571,49 @@ func (e *nmEngine) checkState() {
 	}
 	r.Checkpoint()
 	// C06: the published map in both formats
+	// C06: "publishes the current candidate set" — the set as the contract
+	// itself reported it right before the tick (the probe's observation), not as
+	// the model believes it to be: whether that set is the right one is C07's
+	// business. Where the two differ the observed one becomes the reference.
+	if r.Prop == "C06" {
+		for ti, ts := range e.blkTickSlots {
+			ep, slot := ts[0], ts[1]
+			lit, err1 := w.Read(e.probes[0].Hash, "observedLegacy", slot)
+			sit, err2 := w.Read(e.probes[0].Hash, "observedStructured", slot)
+			if err1 != nil || err2 != nil {
+				harnessf("observation slot %d: %v %v", slot, err1, err2)
+			}
+			if _, null := lit.(stackitem.Null); null {
+				continue // the observer transaction itself did not take effect
+			}
+			wantLeg := nmDropOffline(nmLegacyListText(lit))
+			wantN2 := nmStructListText(sit)
+			h := m.retained(ep)
+			if h == nil {
+				continue
+			}
+			if wantLeg != h.leg || wantN2 != h.n2 {
+				r.Count("c06_reference_taken_from_observation")
+				h.leg, h.n2 = wantLeg, wantN2
+				if ep == m.epoch {
+					m.curLeg, m.curN2 = wantLeg, wantN2
+				}
+			}
+			if ep != m.epoch && !m.jumped && ep > m.epoch-m.n {
+				// published by an earlier tick of this block: its first read
+				// (histories with epoch jumps are left out, like in C08: what is
+				// retained after a jump is not specified)
+				// (the legacy ring counts ticks, not epochs: d ticks ago)
+				d := int64(m.blkTicks - 1 - tickIndex(e, ti))
+				if got, err := e.readText(nmLegacyListText, "snapshot", d); err == nil && d > 0 && d < m.n && got != h.leg {
+					r.Violation("C06/netmap-mismatch", "", "snapshot(%d) = [%s], candidates right before the tick to epoch %d: [%s]", d, got, ep, h.leg)
+				}
+				if got, err := e.readText(nmStructListText, "listNodes", ep); err == nil && got != h.n2 {
+					r.Violation("C06/listnodes-mismatch", "", "listNodes(%d) = [%s], candidates right before that tick: [%s]", ep, got, h.n2)
+				}
+			}
+		}
+	}
 	// C08 is about keeping what was published, whatever that was: *what* a tick
 	// publishes is C06's (and the candidate set C07's) business. When C08 is
 	// decided and the map just published is not the model's, the observed one
@@ -1710,4 +1778,27 @@ func (e *nmEngine) retainedText() string {
 		l[i] = fmt.Sprintf("%d", h.epoch)
 	}
 	return "{" + strings.Join(l, ",") + "}"
+}
+
+// nmDropOffline removes the offline entries from a canonical legacy list text
+// ("the current candidate set … legacy: all non-offline candidates").
+func nmDropOffline(text string) string {
+	if text == "" {
+		return ""
+	}
+	var keep []string
+	for _, e := range strings.Split(text, " ") {
+		if strings.HasSuffix(e, fmt.Sprintf("/%d", nmOffline)) {
+			continue
+		}
+		keep = append(keep, e)
+	}
+	return strings.Join(keep, " ")
+}
+
+// tickIndex: position, among the ticks that took effect in the block just
+// executed, of the ti-th tick that had an observation.
+func tickIndex(e *nmEngine, ti int) int {
+	// every tick of a C06 run has an observation, so the positions coincide
+	return ti
 }
